@@ -300,10 +300,17 @@ fn run_history_with<T: Ix>(ops: &[Op], new: T, delta: T, total: T, spread: bool)
          Op::Insert(k, v) | Op::InsertShared(k, v) | Op::InsertIfAbsent(k, v) => {
             let key = if T::NOKEY { 0 } else { *k };
             let present_anywhere = mn.contains_key(&key) || md.contains_key(&key) || mt.contains_key(&key);
+            // full-index protocol: a key is inserted once for a plain relation; the key index of a lattice gets the
+            // same (key, row number) again whenever the row is improved, also when the key is already in delta or total
+            let mut relatticed: Option<u8> = None;
             if T::FULL && present_anywhere && !matches!(op, Op::InsertIfAbsent(..)) {
-               // full-index protocol: a key is inserted once
-               continue;
+               let held = mn.get(&key).or(md.get(&key)).or(mt.get(&key)).and_then(|vs| vs.first().copied());
+               match held {
+                  Some(hv) if *v % 2 == 0 && !mn.contains_key(&key) => relatticed = Some(hv),
+                  _ => continue,
+               }
             }
+            let (k, v) = (k, &relatticed.unwrap_or(*v));
             match op {
                Op::InsertIfAbsent(..) if T::FULL => {
                   let in_new = mn.contains_key(&key);
